@@ -128,7 +128,8 @@ package lang
 //  T1 after a success the next process to run is never a `||` alternative (every directly following
 //     alternative is skipped - a command skipped by `||` counts as succeeding);
 //  T2 everything between the process just run and the next one to run was marked terminated (skipped);
-//  T3 after a failure the alternative directly behind it runs (nothing is skipped);
+//  T3 after a failure the alternative directly behind it runs (nothing is skipped), and
+//  T5 a failure is only ever followed by a `||` alternative (otherwise the block has ended);
 //  T4 the scan moves forward.
 // A failure whose successor is not a `||` alternative ends the block: that path returns and is
 // covered by the postcondition (the exit number returned is the failing one).
@@ -141,6 +142,7 @@ package lang
 //@   loop 1 step imp(exitNum < 1 && i < len(*procs), !(*procs)[i].OperatorLogicOr)
 //@   loop 1 step forall(k, old(i)+1, i, (*procs)[k].hasTerminatedV)
 //@   loop 1 step imp(exitNum > 0, i == old(i)+1)
+//@   loop 1 step imp(exitNum > 0 && i < len(*procs), (*procs)[i].OperatorLogicOr)
 //@   loop 1 step i > old(i)
 //@   loop 1 decreases len(*procs) - i
 //@   loop 2 invariant old@loop1(i) <= i && i < len(*procs) && len(*procs) == len(old(*procs)) && exitNum < 1 && GlobalFIDs.list != nil
@@ -163,6 +165,7 @@ package lang
 //@   loop 1 step imp(exitNum < 1 && i < len(*procs) && !(*procs)[i].IsMethod, !(*procs)[i].OperatorLogicOr)
 //@   loop 1 step forall(k, old(i)+1, i, (*procs)[k].hasTerminatedV)
 //@   loop 1 step imp(exitNum > 0, i == old(i)+1)
+//@   loop 1 step imp(exitNum > 0 && i < len(*procs) && (old(i)+1 == len(*procs) || !(*procs)[old(i)+1].IsMethod), (*procs)[i].OperatorLogicOr)
 //@   loop 1 step i > old(i)
 //@   loop 1 decreases len(*procs) - i
 //@   loop 2 invariant old@loop1(i) <= i && i < len(*procs) && len(*procs) == len(old(*procs)) && exitNum < 1 && GlobalFIDs.list != nil
